@@ -23,6 +23,10 @@ type commandPipeline struct {
 	seq       uint64
 	proposals map[uint64]*commandProposal
 	applier   func(*pb.RaftCmdRequest) (*pb.RaftCmdResponse, error)
+	// admit (optional) decides, when a committed command is about to be applied, whether the
+	// region it was proposed to still owns it; a non-nil answer is returned to the proposer
+	// and the command is not executed.
+	admit func(*pb.RaftCmdRequest) *pb.RegionError
 }
 
 func newCommandPipeline(applier func(*pb.RaftCmdRequest) (*pb.RaftCmdResponse, error)) *commandPipeline {
@@ -100,6 +104,14 @@ func (cp *commandPipeline) applyEntries(entries []myraft.Entry) error {
 		}
 		if cp.applier == nil {
 			return fmt.Errorf("commandPipeline: apply without handler")
+		}
+		// The checks made when the command was proposed can be outdated by now: a split or
+		// merge logged before this entry has changed the region's range and epoch.
+		if cp.admit != nil {
+			if regionErr := cp.admit(req); regionErr != nil {
+				cp.completeProposal(req.GetHeader().GetRequestId(), &pb.RaftCmdResponse{Header: req.GetHeader(), RegionError: regionErr}, nil)
+				continue
+			}
 		}
 		resp, applyErr := cp.applier(req)
 		if applyErr != nil {
